@@ -93,8 +93,10 @@ func realiseGxz(abs gxzScenario, seed int64, thorough bool) []gxzScenario {
 					// the reader reports the error together with the last data of the first stream
 					bads = append(bads, "twostream-cut", "stray")
 				} else {
-					// content larger than the decoder's window: the error arrives with the last data
-					bads = append(bads, "truncated-big")
+					// content larger than the decoder's window: the error arrives with the last data;
+					// a complete .lzma stream followed by stray bytes or by a second .lzma stream (the
+					// format has no concatenation; xz-utils calls both corrupt): nothing may be dropped silently
+					bads = append(bads, "truncated-big", "stray", "concat")
 				}
 			}
 			for _, bad := range bads {
@@ -136,6 +138,8 @@ func realiseGxz(abs gxzScenario, seed int64, thorough bool) []gxzScenario {
 						comp = append(append([]byte{}, comp...), comp[:8]...)
 					case "stray":
 						comp = append(append([]byte{}, comp...), 0x13, 0x37, 0x42)
+					case "concat":
+						comp = append(append([]byte{}, comp...), gxzEncode(format, []byte("a second member that must not vanish\n"))...)
 					case "truncated-big":
 						comp = comp[:len(comp)*2/3]
 					case "corrupt":
